@@ -1,5 +1,6 @@
 import TracklibVerif.Lemmas.Resample
 import TracklibVerif.Lemmas.ObsTime
+import TracklibVerif.Lemmas.ObsTimeG
 import Mathlib.Data.Rat.Floor
 import Mathlib.Analysis.Real.Sqrt
 /-! # C05 — linear resampling returns the piecewise-linear interpolant of the track
@@ -8,7 +9,10 @@ Property theorems only (helper lemmas are in `Lemmas/Resample.lean`). The model
 (`Model/Resample.lean`) mirrors `prepareTimeSampling`, `__resampleTemporal`, `__resampleSpatial`, the dispatcher
 `interpolation.resample`, the front end `Track.resample` and the callers that delegate to linear resampling
 (`track // ref`, `track ** n`, `track * k`, `sample`, `synchronize`, `TrackCollection.resample`); a fix is
-`(x, y, z, t)` with `t = timestamp.toAbsTime()`; the stamp of an output is the C03 model (`stampOf`). All
+`(x, y, z, t)` with `t = timestamp.toAbsTime()`; the stamp of an output is `ObsTime.readUnixTime(t)` as C03's
+operation-for-operation reader computes it (`stampG` = `readUnixG`), proved equal to the integer C03 model on `⌊1000·t⌋`
+(`stampOf`) for every `t ≥ 0` (S3, S2', S1'); in spatial mode the first output is a copy of the first fix and carries its own
+`ObsTime` (the same stamp in exact arithmetic: C03 `readUnixG_toAbsG`). All
 statements are over an arbitrary linearly ordered field (ℚ, ℝ): for every track, every list of instants, every step.
 Sections: T1–T4 (temporal / spatial), D1–D4 (degenerate requests), S1 (millisecond stamps), T3d (pauses),
 O1–O5 (callers), T5 (the forms giving a number of points: the property's answer for the step the output exhibits), T4c / T4' (the clamp of the interpolated time, fix 20ed89f: a no-op in exact arithmetic; what it
@@ -806,6 +810,155 @@ theorem spatial_stamps_monotone (trunc : α → Int) (htr : TruncSpec trunc) (ms
     simp only [h.2]
     omega
 
+/-! ### the stamp is `ObsTime.readUnixTime` of the interpolated time (composition with C03's float-path reader) -/
+
+omit [IsStrictOrderedRing α] in
+/-- the contract of `int()` used by C03's reader implies the one used by the resampling model -/
+theorem truncSpec_of_truncZ {trunc : α → Int} (h : TV.ObsTime.TruncZ trunc) : TruncSpec trunc := by
+  intro x hx
+  obtain ⟨h0, h1, h2⟩ := h x hx
+  have e : (((trunc x).toNat : Nat) : α) = ((trunc x : Int) : α) := by
+    rw [← Int.cast_natCast, Int.toNat_of_nonneg h0]
+  rw [e]
+  exact ⟨h1, h2⟩
+
+/-- S3 `stamp_is_readUnixTime`. What `stampOf` was by definition is a theorem about the mirrored code: for EVERY instant
+`t ≥ 0` (1970 or later) — a whole number of milliseconds or not, e.g. the interpolated time of a spatial sample —
+`ObsTime.readUnixTime(t)` run operation for operation on the fractional seconds (`stampG` = C03's `readUnixG`: year loop with
+its fuel, month loop, the three truncated divisions, `ms = int((t − int(t))·1000)`) ends and returns exactly the calendar
+fields of the integer reader on the millisecond `⌊1000·t⌋`: `stampG trunc t = (stampOf ms t).map toZ`, with
+`stampOf ms t = some (readUnixMs ⌊1000·t⌋)`. (Exact arithmetic and an exact `int()`; at IEEE doubles `stampG` itself is what the
+driver emits and the harness compares field for field with the real code.) -/
+theorem stamp_is_readUnixTime (trunc : α → Int) (htz : TV.ObsTime.TruncZ trunc) (ms : α → Int) (hms : MsFloor ms)
+    (t : α) (ht : 0 ≤ t) :
+    stampG trunc t = (stampOf ms t).map TV.ObsTime.Stamp.toZ ∧
+    stampOf ms t = some (TV.ObsTime.readUnixMs (ms t).toNat) := by
+  have hnn := hms.nonneg ht
+  have h2 : stampOf ms t = some (TV.ObsTime.readUnixMs (ms t).toNat) := by
+    simp only [stampOf]
+    rw [if_neg (by omega)]
+  refine ⟨?_, h2⟩
+  rw [h2]
+  obtain ⟨hf0, hf1⟩ := TV.ObsTime.frac_bounds trunc htz t ht
+  obtain ⟨hk, hk1, hk2⟩ := TV.ObsTime.ms_bounds trunc htz _ hf0 hf1
+  have hM : (((ms t).toNat : Nat) : α) = ((ms t : Int) : α) := by
+    rw [← Int.cast_natCast, Int.toNat_of_nonneg hnn]
+  obtain ⟨hm1, hm2⟩ := hms t
+  rw [← hM] at hm1 hm2
+  have a1 : (((ms t).toNat : Nat) : α)
+      < ((1000 * (trunc t).toNat + (trunc ((t - ((trunc t).toNat : α)) * 1000)).toNat + 1 : Nat) : α) := by
+    push_cast; linarith
+  have a2 : ((1000 * (trunc t).toNat + (trunc ((t - ((trunc t).toNat : α)) * 1000)).toNat : Nat) : α)
+      < (((ms t).toNat + 1 : Nat) : α) := by
+    push_cast; linarith
+  have b1 : (ms t).toNat < 1000 * (trunc t).toNat + (trunc ((t - ((trunc t).toNat : α)) * 1000)).toNat + 1 := by
+    exact_mod_cast a1
+  have b2 : 1000 * (trunc t).toNat + (trunc ((t - ((trunc t).toNat : α)) * 1000)).toNat < (ms t).toNat + 1 := by
+    exact_mod_cast a2
+  have hMeq : (ms t).toNat = 1000 * (trunc t).toNat + (trunc ((t - ((trunc t).toNat : α)) * 1000)).toNat := by omega
+  have e : t = ((trunc t).toNat : α) + (t - ((trunc t).toNat : α)) := by ring
+  unfold stampG
+  conv_lhs => rw [e]
+  rw [TV.ObsTime.readUnixG_nat_add_frac trunc htz _ _ hf0 hf1]
+  simp only [Option.map_some, TV.ObsTime.readUnixMs]
+  rw [hMeq]
+  have e1 : (1000 * (trunc t).toNat + (trunc ((t - ((trunc t).toNat : α)) * 1000)).toNat) / 1000 = (trunc t).toNat := by
+    omega
+  have e2 : (1000 * (trunc t).toNat + (trunc ((t - ((trunc t).toNat : α)) * 1000)).toNat) % 1000
+      = (trunc ((t - ((trunc t).toNat : α)) * 1000)).toNat := by omega
+  rw [e1, e2]
+
+/-- S2' `spatial_stamps_readUnixTime`. S2 about the stamps the mirrored code computes: spatial resampling (step `ds > 0`) of a
+track whose stamps never decrease and are not before 1970 returns observations whose timestamps — `ObsTime.readUnixTime` run
+operation for operation on each interpolated, generally non-integral time (`stampG`) — are exactly the model's `stampOf`, i.e.
+the calendar stamps `readUnixMs m` of the milliseconds `m = ⌊1000·t⌋`, and these `m` never decrease along the output: the
+timestamps `__resampleSpatial` actually attaches never decrease. (Exact arithmetic.) -/
+theorem spatial_stamps_readUnixTime (trunc : α → Int) (htz : TV.ObsTime.TruncZ trunc) (ms : α → Int) (hms : MsFloor ms)
+    (P : List (Fix α)) (legs : List α) (hlen : legs.length + 1 = P.length) (hlegs : ∀ x ∈ legs, 0 ≤ x)
+    (hT : (P.map (·.t)).Pairwise (· ≤ ·)) (h0 : (0 : α) ≤ (P[0]'(by omega)).t) (ds : α) (hds : 0 < ds) :
+    ∃ out, resampleSpatialLegs trunc P legs ds = .ok out ∧
+      out.map (fun p => stampG trunc p.t) = (stamps ms out).map (Option.map TV.ObsTime.Stamp.toZ) ∧
+      out.map (fun p => stampG trunc p.t)
+        = (out.map (fun p => (ms p.t).toNat)).map (fun m => some (TV.ObsTime.readUnixMs m).toZ) ∧
+      (out.map (fun p => (ms p.t).toNat)).Pairwise (· ≤ ·) := by
+  obtain ⟨out, hout, _, hmono, hfl, _⟩ :=
+    spatial_stamps_monotone trunc (truncSpec_of_truncZ htz) ms hms P legs hlen hlegs hT h0 ds hds
+  have hnn : ∀ p ∈ out, (0 : α) ≤ p.t := by
+    intro p hp
+    have h := (hfl p hp).1
+    have hc : (0 : α) ≤ (((ms p.t).toNat : Nat) : α) := Nat.cast_nonneg _
+    nlinarith
+  refine ⟨out, hout, ?_, ?_, hmono⟩
+  · simp only [stamps, List.map_map]
+    apply List.map_congr_left
+    intro p hp
+    exact (stamp_is_readUnixTime trunc htz ms hms p.t (hnn p hp)).1
+  · rw [List.map_map]
+    apply List.map_congr_left
+    intro p hp
+    obtain ⟨h1, h2⟩ := stamp_is_readUnixTime trunc htz ms hms p.t (hnn p hp)
+    simp only [Function.comp, h1, h2, Option.map_some]
+
+/-- S1' `temporal_stamps_readUnixTime`. S1 for instants that are NOT whole milliseconds, and about the stamps the mirrored code
+computes: on a track whose stamps never decrease, first fix not before 1970, instants requested in any order (any scalars):
+the observation returned for each instant `t ∈ (tini, tfin]` carries `ObsTime.readUnixTime(t)` (`stampG`) = the calendar stamp
+of the millisecond `⌊1000·t⌋` the instant falls in — "stamped with that instant to the millisecond". (Exact arithmetic.) -/
+theorem temporal_stamps_readUnixTime (trunc : α → Int) (htz : TV.ObsTime.TruncZ trunc) (ms : α → Int) (hms : MsFloor ms)
+    (P : List (Fix α)) (hn : 0 < P.length) (hT : (P.map (·.t)).Pairwise (· ≤ ·)) (h0 : (0 : α) ≤ (P[0]).t)
+    (ref : List α) :
+    ∃ out, resampleTemporal trunc P (.instants ref) = .ok out ∧
+      out.map (fun p => stampG trunc p.t)
+        = (ref.filter (inRange (P[0]).t (P[P.length - 1]).t)).map
+            (fun t => some (TV.ObsTime.readUnixMs (ms t).toNat).toZ) ∧
+      out.map (fun p => stampG trunc p.t) = (stamps ms out).map (Option.map TV.ObsTime.Stamp.toZ) := by
+  obtain ⟨out, hout, _, _, hts⟩ := temporal_count_any_order trunc P hn hT ref
+  have hnn : ∀ p ∈ out, (0 : α) ≤ p.t := by
+    intro p hp
+    have hm : p.t ∈ out.map (·.t) := List.mem_map.mpr ⟨p, hp, rfl⟩
+    rw [hts] at hm
+    have hr := (List.mem_filter.mp hm).2
+    simp only [inRange, Bool.and_eq_true, decide_eq_true_eq] at hr
+    linarith [hr.1]
+  refine ⟨out, hout, ?_, ?_⟩
+  · have : out.map (fun p => stampG trunc p.t)
+        = (out.map (·.t)).map (fun t => some (TV.ObsTime.readUnixMs (ms t).toNat).toZ) := by
+      rw [List.map_map]
+      apply List.map_congr_left
+      intro p hp
+      obtain ⟨h1, h2⟩ := stamp_is_readUnixTime trunc htz ms hms p.t (hnn p hp)
+      simp only [Function.comp, h1, h2, Option.map_some]
+    rw [this, hts]
+  · simp only [stamps, List.map_map]
+    apply List.map_congr_left
+    intro p hp
+    exact (stamp_is_readUnixTime trunc htz ms hms p.t (hnn p hp)).1
+
+/-- S2'' `spatial_first_stamp_carried`. The first output of `__resampleSpatial` is `track.getFirstObs().copy()`: it carries the
+first fix's own `ObsTime` `s` instead of `readUnixTime` of its time (`spatialStampsG`). When that stamp is a well-formed calendar
+stamp (`t₀ = s.toAbsTime()`), this is the same list of timestamps as re-reading every output's time (`stampG`), so S2' describes
+the stamps the track really holds. (Exact arithmetic: C03's round trip `readUnixTime(toAbsTime()) = id`; in doubles the carried
+stamp may be one millisecond later than the re-read one — the harness compares output 0 with the first fix's own stamp.) -/
+theorem spatial_first_stamp_carried (trunc : α → Int) (htz : TV.ObsTime.TruncZ trunc)
+    (P : List (Fix α)) (legs : List α) (hlen : legs.length + 1 = P.length) (hlegs : ∀ x ∈ legs, 0 ≤ x)
+    (hT : (P.map (·.t)).Pairwise (· ≤ ·)) (ds : α) (hds : 0 < ds)
+    (s : TV.ObsTime.Stamp) (hs : TV.ObsTime.WFs s) (h0 : (P[0]'(by omega)).t = TV.ObsTime.toAbsG s.toZ) :
+    ∃ out, resampleSpatialLegs trunc P legs ds = .ok out ∧
+      spatialStampsG trunc s.toZ out = out.map (fun p => stampG trunc p.t) := by
+  obtain ⟨N, heq, _, _⟩ := spatial_samples trunc (truncSpec_of_truncZ htz) P legs hlen hlegs hT ds hds
+  refine ⟨_, heq, ?_⟩
+  have hrt : stampG trunc (P[0]'(by omega)).t = some s.toZ := by
+    obtain ⟨hd, hms⟩ := hs
+    have e : (TV.ObsTime.toAbsG s.toZ : α) = ((TV.ObsTime.toAbsSec s.d : Nat) : α) + (s.ms : α) / 1000 := by
+      rw [TV.ObsTime.toAbsG_toZ s hd.2.2.2.1]
+      simp only [TV.ObsTime.toAbsMs, Nat.cast_add, Nat.cast_mul, Nat.cast_ofNat]; ring
+    have hf0 : (0 : α) ≤ (s.ms : α) / 1000 := by positivity
+    have hf1 : (s.ms : α) / 1000 < 1 := by
+      rw [div_lt_one (by norm_num)]; exact_mod_cast hms
+    unfold stampG
+    rw [h0, e, TV.ObsTime.readUnixG_nat_add_frac trunc htz _ _ hf0 hf1, TV.ObsTime.ms_exact trunc htz,
+      TV.ObsTime.readUnix_toAbs s.d hd]
+  simp only [spatialStampsG, List.map_cons, hrt]
+
 /-! ### the clamp of the interpolated time (fix commit 20ed89f) -/
 
 /-- T4c `spatial_clamp_exact`. In exact arithmetic the clamp `T = min(max(T, t_bwd), t_fwd)` added to `__resampleSpatial`
@@ -1004,6 +1157,15 @@ example : MsFloor (fun t : ℚ => (t * 1000).floor) := fun _ => ⟨Int.floor_le 
 example : (resampleSpatialLegs (fun x : ℚ => x.floor) demoRep [5, 5, 5] 2).toOption.map
       (fun out => out.map (fun p => ((p.t * 1000).floor).toNat))
     = some [10000, 14000, 18000, 20000, 20000, 20000, 24000, 28000] := by decide +kernel
+
+/-- the contract of `int()` of C03's reader is met on ℚ -/
+example : TV.ObsTime.TruncZ (fun x : ℚ => x.floor) :=
+  fun x hx => ⟨Int.floor_nonneg.mpr hx, Int.floor_le x, Int.lt_floor_add_one x⟩
+/-- S3 on an instant that is not a whole millisecond: 38.5 s + 1/3 ms reads as 1970-01-01 00:00:38.500 by the mirrored
+float-path reader, which is `stampOf` (⌊1000·t⌋ = 38500) seen as an `ObsTime` -/
+example : stampG (fun x : ℚ => x.floor) (77/2 + 1/3000) = some ⟨1970, 1, 1, 0, 0, 38, 500⟩ := by decide +kernel
+example : (stampOf (fun t : ℚ => (t * 1000).floor) (77/2 + 1/3000)).map TV.ObsTime.Stamp.toZ
+    = some ⟨1970, 1, 1, 0, 0, 38, 500⟩ := by decide +kernel
 
 /-! #### the clamp -/
 /-- the clamp acts on a value outside the two stamps (what a rounded weighted mean may be) and leaves one inside alone -/
